@@ -391,6 +391,14 @@ func (fc *FnCtx) readKey(st *State, key string, gt types.Type) Val {
 		st.env[key] = v
 		return v
 	}
+	// fields of a record that an unmodelled callee may have written: unknown, per havoc
+	if i := strings.LastIndex(key, "."); i > 0 {
+		if hv, ok := st.env[key[:i]+".$havoc"]; ok {
+			v := fc.initialVal(key+"@"+hv.T, s, gt)
+			st.env[key] = v
+			return v
+		}
+	}
 	v := fc.initialVal(key, s, gt)
 	return v
 }
